@@ -208,6 +208,14 @@ func (ww *WW) Corrupted(tok *OutToken) {
 		}
 	}
 	variants = append(variants, s+s, s+"=", strings.ToUpper(s))
+	// framing a channel may add: blanks, line ends, the cashu: URI scheme — around nothing, around short
+	// prefixes and around the whole token
+	for _, pad := range []string{" ", "\n", "\t", "\r\n", "cashu:", "cashu://", "web+cashu://", "\x00", "\ufeff"} {
+		for n := 0; n <= 8 && n <= len(s); n++ {
+			variants = append(variants, pad+s[:n], s[:n]+pad, pad+s[:n]+pad)
+		}
+		variants = append(variants, pad+s, s+pad, strings.Repeat(pad, 6), strings.Repeat(pad, 7), pad+"cashu", " "+pad+" ")
+	}
 	// well-formed base64 of arbitrary small JSON documents (V3) and CBOR items (V4)
 	for _, doc := range []string{`null`, ` null `, `true`, `0`, `""`, `[]`, `{}`, `[null]`, `{"token":null}`, `{"token":[null]}`,
 		`{"token":[{}]}`, `{"token":[{"mint":null,"proofs":null}]}`, `{"token":[{"mint":"m","proofs":[null]}]}`,
